@@ -14,7 +14,7 @@ use yash_env::builtin::{Builtin, Result as BResult, Type};
 use yash_env::io::Fd;
 use yash_env::semantics::{ExitStatus, Field};
 use yash_env::system::concurrency::{Sleep, WriteAll};
-use yash_env::system::{Close, Errno, GetPid, Mode, OfdAccess, Open, Read, SendSignal, Signals};
+use yash_env::system::{Close, Errno, GetPid, Mode, OfdAccess, Open, Read, SendSignal, Signals, Write};
 
 type BFut<'a> = Pin<Box<dyn Future<Output = BResult> + 'a>>;
 
@@ -300,6 +300,66 @@ fn cat_impl<S: WriteAll + Read + Open + Close>(
     })
 }
 
+/// `recs CH COUNT LEN` - writes COUNT records, each LEN-1 bytes of character CH
+/// plus a newline, one write per record (LEN <= PIPE_BUF makes each atomic).
+fn recs_main<S: WriteAll + Write>(env: &mut Env<S>, args: Vec<Field>) -> BFut<'_> {
+    Box::pin(async move {
+        let a = strs(&args);
+        let ch = a.first().and_then(|s| s.bytes().next()).unwrap_or(b'A');
+        let count: usize = a.get(1).and_then(|s| s.parse().ok()).unwrap_or(1);
+        let len: usize = a.get(2).and_then(|s| s.parse().ok()).unwrap_or(8).max(2);
+        let mut rec = vec![ch; len - 1];
+        rec.push(b'\n');
+        for _ in 0..count {
+            // a single write call per record: a pipe write of at most PIPE_BUF
+            // bytes is all-or-nothing
+            let mut done = 0;
+            while done < rec.len() {
+                match env.system.write(Fd::STDOUT, &rec[done..]).await {
+                    Ok(n) => done += n,
+                    Err(Errno::EINTR) => continue,
+                    Err(_) => return BResult::new(ExitStatus::FAILURE),
+                }
+            }
+        }
+        BResult::new(ExitStatus::SUCCESS)
+    })
+}
+
+/// `recsink LEN` - reads records of LEN bytes from stdin and prints how many
+/// records of each character arrived and how many were torn (mixed content).
+fn recsink_main<S: WriteAll + Read>(env: &mut Env<S>, args: Vec<Field>) -> BFut<'_> {
+    Box::pin(async move {
+        let len: usize = args.first().and_then(|f| f.value.parse().ok()).unwrap_or(8).max(2);
+        let mut data = Vec::new();
+        let mut buf = vec![0u8; 333];
+        loop {
+            match read_some(env, &mut buf).await {
+                Ok(0) => break,
+                Ok(n) => data.extend_from_slice(&buf[..n]),
+                Err(_) => return BResult::new(ExitStatus::FAILURE),
+            }
+        }
+        let mut counts: std::collections::BTreeMap<u8, usize> = Default::default();
+        let mut torn = 0;
+        for rec in data.chunks(len) {
+            let body = &rec[..rec.len().saturating_sub(1)];
+            let ok = rec.len() == len && rec[len - 1] == b'\n' && body.iter().all(|b| *b == body[0]);
+            if ok {
+                *counts.entry(body[0]).or_insert(0) += 1;
+            } else {
+                torn += 1;
+            }
+        }
+        let mut msg = format!("bytes={} torn={torn}", data.len());
+        for (c, n) in counts {
+            msg.push_str(&format!(" {}={n}", c as char));
+        }
+        msg.push('\n');
+        BResult::new(write_out(env, Fd::STDOUT, msg.as_bytes()).await)
+    })
+}
+
 /// `selfkill NAME` - the calling process sends itself the named signal
 /// (TERM, KILL, INT, HUP, USR1, ...).
 fn selfkill_main<S: SendSignal + Signals>(env: &mut Env<S>, args: Vec<Field>) -> BFut<'_> {
@@ -322,10 +382,12 @@ fn selfkill_main<S: SendSignal + Signals>(env: &mut Env<S>, args: Vec<Field>) ->
 /// Probes that work on any system (also used on the real kernel).
 pub fn generic_probes<S>() -> Vec<(&'static str, Builtin<S>)>
 where
-    S: WriteAll + Read + GetPid + Sleep + Open + Close + SendSignal + Signals + 'static,
+    S: WriteAll + Write + Read + GetPid + Sleep + Open + Close + SendSignal + Signals + 'static,
 {
     vec![
         ("selfkill", Builtin::new(Type::Mandatory, selfkill_main)),
+        ("recs", Builtin::new(Type::Mandatory, recs_main)),
+        ("recsink", Builtin::new(Type::Mandatory, recsink_main)),
         ("cat", Builtin::new(Type::Mandatory, cat_main)),
         ("catfd", Builtin::new(Type::Mandatory, catfd_main)),
         ("echo", Builtin::new(Type::Mandatory, echo_main)),
